@@ -41,7 +41,13 @@ ASSUMPTIONS = [
     "the initial state is (E, H) at step 0 with zero PML auxiliary fields; runs with initial fields go through "
     "custom_fdtd_forward(reset_container=False), runs without through run_fdtd",
     "tolerance 1e-9 (f64) / 2e-4 (f32) relative to the largest term of the superposition (per quantity: E, H, "
-    "each detector record); quadratic records relative to max(1, l^2) * max|record|",
+    "each detector record); quadratic records relative to max(1, l^2) * max|record|; for records that are sums of "
+    "signed samples or sit in a quiet region the largest term is not the record itself: round-off made where the "
+    "field is large (eps*max|F|) travels with the wave, so the noise floor is absolute (seen: max|F| = 0.2, 1e-10 at "
+    "a detector, superposition error 1e-18 there). Linear records therefore use scale = max(max|record|, rho*max|F|) "
+    "with max|F| over the whole domain and all steps (auxiliary full-domain field detector) and rho = 1e-3 (f64) / "
+    "0.1 (f32); quadratic records are only checked where the local field reaches rho*max|F|, and reduced Poynting "
+    "sums are scaled by their cancellation factor sum|S_i|/|sum S_i| from an unreduced twin detector",
     "random initial fields are projected onto the boundary walls with the boundaries' own post-update hooks "
     "(a linear projection, applied identically in every run)",
 ]
@@ -170,6 +176,30 @@ def case_strategy(draw, ctx):
 # ----------------------------------------------------------------------------------------------
 # runs
 # ----------------------------------------------------------------------------------------------
+TWIN = "__cells"
+ALL = "__all"
+COMPS = ["Ex", "Ey", "Ez", "Hx", "Hy", "Hz"]
+
+
+def _with_aux(scene):
+    """Auxiliary detectors that only serve to put a scale on round-off (they are never compared themselves):
+
+    * `__all`: raw E,H of the whole domain at every step.  Round-off made where the field is large (~eps*max|F|)
+      travels with the wave, so the noise floor in a quiet corner is absolute, not relative to the local field
+      (seen: |F| = 0.2 globally, 1e-10 at a detector, superposition error 1e-18 there = 1e-8 of the local field).
+    * an unreduced twin of every reduced Poynting detector: gives the cancellation factor sum|S_i| / |sum S_i|."""
+    sc = copy.deepcopy(scene)
+    sc["detectors"].append({"type": "field", "name": ALL, "exact": False, "switch": {}, "lo": [0, 0, 0],
+                            "hi": list(scene["shape"]), "reduce": False, "components": list(COMPS)})
+    for d in scene["detectors"]:
+        if d["type"] == "poynting" and d.get("reduce"):
+            t = {k: d[k] for k in ("direction", "keep_all", "fixed_axis") if k in d}
+            t.update(type="poynting", reduce=False, name=d["name"] + TWIN, exact=d.get("exact", True),
+                     switch=copy.deepcopy(d.get("switch", {})), lo=list(d["lo"]), hi=list(d["hi"]))
+            sc["detectors"].append(t)
+    return sc
+
+
 def _run(scene, sources, lane, init=None):
     """One separately placed run. init = (E0, H0) numpy or None. -> (E, H, {det: {key: array}}, built)"""
     import fdtdx
@@ -203,6 +233,9 @@ def body(ctx, case):
     lane = ctx.lane
     tol = ctx.tol(1e-9, 2e-4)
     dets = {d["name"]: d["type"] for d in scene["detectors"]}
+    by_name = {d["name"]: d for d in scene["detectors"]}
+    scene = _with_aux(scene)
+    rho = ctx.tol(1e-3, 0.1)  # quiet-region floor, as a fraction of the global max|F| over space and time
 
     # ---- classification (from the case alone) --------------------------------------------------
     kinds = sorted({f["kind"] for f in scene["faces"].values()})
@@ -265,11 +298,20 @@ def body(ctx, case):
         ctx.close(k, ek, scale=max(bigk, 1e-300), tol=tol,
                   msg=f"final {nm}: run with scaled amplitude factors != scaled sum", metric="scale_" + nm)
 
+    allrec = lambda r: r[2][ALL]["fields"]  # noqa: E731
+    runs = singles + ([init_run] if init_run is not None else [])
+    fmax = max([_amax(allrec(r)) for r in runs] + [_amax(allrec(joint))])
+    fmax_k = max([abs(l) * _amax(allrec(r)) for l, r in zip(list(lams) + [lam0], runs)] + [_amax(allrec(scaled))])
+    ctx.check(fmax > 0 and np.isfinite(fmax), "fields vanish or are not finite at every step", observed=fmax)
+
     for name, typ in dets.items():
         if typ not in LIN:
             continue
         for key in joint[2][name]:
             j, ej, k, ek, big, bigk = combos(lambda r, name=name, key=key: r[2][name][key])
+            c = 2.0 if typ == "phasor" else 1.0  # a continuous-mode phasor is (2/N) * sum of N unit-modulus terms
+            big = max(big, c * rho * fmax)
+            bigk = max(bigk, c * rho * fmax_k)
             if big == 0.0:
                 ctx.classify("zero-linear-record")
                 continue
@@ -290,6 +332,21 @@ def body(ctx, case):
                 if big == 0.0:
                     ctx.classify("zero-quadratic-record")
                     continue
+                d = by_name[name]
+                region = (slice(None), slice(None), *(slice(max(lo - 1, 0), hi + 1) for lo, hi in zip(d["lo"], d["hi"])))
+                if _amax(allrec(joint)[region]) < rho * _amax(allrec(joint)):
+                    # relative noise of a quadratic record is 2*eps*max|F|/|F_local|: outside the stated tolerance
+                    ctx.classify("quadratic-in-quiet-region-not-checked")
+                    continue
+                if name + TWIN in joint[2]:  # reduced flux: scale of the summands, via the cancellation factor
+                    tw = joint[2][name + TWIN][key].astype(np.float64)
+                    tw = tw.reshape(tw.shape[0], 3, -1) if by_name[name].get("keep_all") else tw.reshape(tw.shape[0], -1)
+                    a, b = _amax(np.abs(tw).sum(axis=-1)), _amax(tw.sum(axis=-1))
+                    if b == 0.0:
+                        ctx.classify("flux-sum-fully-cancelled")
+                        continue
+                    # rectilinear grids: face areas inside one plane vary by at most (1.6/0.6)^2 < 8
+                    big *= max(1.0, a / b * (8.0 if scene["grid"]["kind"] == "rect" else 1.0))
                 ctx.classify("quadratic-checked")
                 ctx.close(qk, lam * lam * qj.astype(np.float64), scale=max(1.0, lam * lam) * big, tol=tol,
                           msg=f"{typ} detector {name}[{key}]: common factor {lam} does not scale the record by {lam * lam}",
@@ -298,6 +355,6 @@ def body(ctx, case):
 
 SUBS = [
     Sub(name="superposition", body=body, strategy=lambda ctx: case_strategy(ctx), quick=12, thorough=480,
-        lanes=("f64", "f32"), f32_fraction=0.25, quick_shards=3,
+        lanes=("f64", "f32"), f32_fraction=0.25, quick_shards=3, max_seconds_quick=420.0,
         rule="fixed scene; runs: each source alone, initial state alone, joint, scaled; numpy linear combination"),
 ]
